@@ -524,7 +524,7 @@ structure Result where
   head : Str
   completions : List Str
   tail : Str
-  deriving Repr
+  deriving Repr, DecidableEq
 
 /-- the part of Interp.CompleteWords after `head = line[:pos]; tail = line[pos:]`;
     `none` = a panic was recovered (the function then returns "", nil, "") -/
